@@ -5,6 +5,7 @@
 
 mod engine;
 mod c05;
+mod c18;
 mod diff_suites;
 mod gen;
 mod lfu_suites;
@@ -117,6 +118,7 @@ fn main() {
                 max_secs: argn(&args, "--max-secs", 600),
                 heapy: flag(&args, "--heapy"),
                 spread_directed: flag(&args, "--spread-directed"),
+                inject_stride: argn(&args, "--inject-stride", 1),
                 variant,
             };
             let out = match ctx.prop.as_str() {
@@ -128,6 +130,32 @@ fn main() {
                 "C01" | "C02" | "C03" | "C04" | "C06" | "C07" | "C08" | "C09" | "C10" | "C12"
                 | "C14" | "C15" => engine_suite(&ctx),
                 "C05" => c05::c05_suite(&ctx),
+                "C18" => {
+                    // watchdog: a post-panic operation that spins is inconclusive, not a verdict
+                    static DONE: std::sync::atomic::AtomicBool = std::sync::atomic::AtomicBool::new(false);
+                    let wd = std::thread::spawn(|| {
+                        let mut last = u64::MAX;
+                        let mut idle_ms = 0u64;
+                        while !DONE.load(std::sync::atomic::Ordering::Relaxed) {
+                            std::thread::sleep(std::time::Duration::from_millis(if cfg!(miri) { 20 } else { 200 }));
+                            let now = c18::HEARTBEAT.load(std::sync::atomic::Ordering::Relaxed);
+                            if now == last {
+                                idle_ms += 200;
+                                if idle_ms >= 30_000 && !cfg!(miri) {
+                                    println!("@@HANG {}", J::obj().set("heartbeat", J::U(now)));
+                                    std::process::exit(86);
+                                }
+                            } else {
+                                idle_ms = 0;
+                                last = now;
+                            }
+                        }
+                    });
+                    let o = c18::c18_suite(&ctx);
+                    DONE.store(true, std::sync::atomic::Ordering::Relaxed);
+                    let _ = wd.join();
+                    o
+                }
                 "C16" => diff_suites::c16_suite(&ctx),
                 "C17" => diff_suites::c17_suite(&ctx),
                 "C11" => lfu_suites::c11_suite(&ctx),
@@ -182,10 +210,22 @@ fn main() {
                 }
             }
             let mut extra = std::collections::BTreeMap::new();
-            for k in ["clone-at", "fork-at", "keep-clone", "swaps", "inserted"] {
+            for k in ["clone-at", "fork-at", "keep-clone", "swaps", "inserted", "inject-at", "nkeys", "clone"] {
                 if let Some(v) = arg(&args, &format!("--{}", k)) {
                     extra.insert(k.to_string(), v.to_string());
                 }
+            }
+            if prop == "C18" {
+                track::set_heapy(flag(&args, "--heapy"));
+                println!("config: {}  ops: {}  extra: {:?}", cfg.describe(), ops_to_string(&ops), extra);
+                match c18::replay(&cfg, &ops, &extra) {
+                    Some((rule, detail)) => {
+                        println!("@@VIOLATION {}", J::obj().set("property", J::s("C18")).set("rule", J::s(rule)).set("detail", J::s(detail)));
+                        println!("@@REPLAY {}", J::obj().set("violations", J::U(1)));
+                    }
+                    None => println!("@@REPLAY {}", J::obj().set("violations", J::U(0))),
+                }
+                return;
             }
             if prop == "C16" || prop == "C17" || (prop == "C13" && extra.contains_key("inserted")) {
                 track::set_heapy(flag(&args, "--heapy"));
